@@ -252,8 +252,8 @@ end Graph
 
 /-- node labels of the model graph -/
 inductive GLabel where
-  | leaf (id : Nat)            -- which host array
-  | op (arity : Nat)
+  | leaf (id : Nat)                 -- which host array
+  | op (operands : List Nat)        -- `node_t::operands`: node ids of the inputs, in operand order
 deriving DecidableEq, Repr
 
 mutual
@@ -292,7 +292,7 @@ def IView.graph : IView → Option (Graph GLabel)
   | .leaf n i => some (Graph.empty.addNode n (.leaf i))
   | .node n args => do
       let g ← IArgs.graph args Graph.empty
-      let g := g.addNode n (.op args.len)
+      let g := g.addNode n (.op args.ids)
       args.ids.foldlM (fun a src => a.addEdge src n) g
 def IArgs.graph : IArgs → Graph GLabel → Option (Graph GLabel)
   | .nil, g => some g
